@@ -379,6 +379,9 @@ func (b *c07Builder) item(it c07Item, depth int) []Stmt {
 			fd.Rets = []Type{TInt}
 		}
 		fd.Body = append([]Stmt{b.mark()}, b.block(it.kids[0], depth+1)...)
+		if it.kind == "fngi" && len(it.kids[0]) == 0 {
+			fd.Body = nil // a value-returning function with NO statement at all (not even the marker print)
+		}
 		if it.kind == "fnfi" {
 			fd.Body = append(fd.Body, Return{Vals: []Expr{IntLit{id + 500}}})
 		}
